@@ -102,3 +102,20 @@ fn c16_sqrt() {
     assert!(is_float(&frag_fn_sqrt(sv("2.25"), vec![]), 1.5), "OBL C16.sqrt: SQRT(2.25)");
     assert!(is_empty_value(&frag_fn_sqrt(sv("x"), vec![])), "OBL C16.sqrt: ill-typed argument -> empty value");
 }
+// YEAR / MONTH / DAY / DOW: the parts of the date the argument denotes; DOW counts from Sunday = 1 (documentation); an argument that is no date
+// gives an empty value
+#[kani::proof]
+#[kani::unwind(4)]
+fn c16_date_parts() {
+    let y: i32 = kani::any(); let m: u32 = kani::any(); let d: u32 = kani::any(); let wd: u32 = kani::any();
+    kani::assume(y >= 0 && y <= 9999 && m >= 1 && m <= 12 && d >= 1 && d <= 31 && wd < 7);
+    kani::cover!(wd == 6);
+    unsafe { PARSED = Some(SDate { y, m, d, wd }); }
+    assert!(frag_fn_year(String::new(), vec![]) == Variant::Int(y as i64), "OBL C16.date.parts: YEAR");
+    assert!(frag_fn_month(String::new(), vec![]) == Variant::Int(m as i64), "OBL C16.date.parts: MONTH");
+    assert!(frag_fn_day(String::new(), vec![]) == Variant::Int(d as i64), "OBL C16.date.parts: DAY");
+    assert!(frag_fn_dayofweek(String::new(), vec![]) == Variant::Int(wd as i64 + 1), "OBL C16.date.parts: DOW is 1 for Sunday .. 7 for Saturday");
+    unsafe { PARSED = None; }
+    assert!(matches!(frag_fn_year(String::new(), vec![]), Variant::Empty(_)), "OBL C16.date.parts: no date -> empty value");
+    assert!(matches!(frag_fn_dayofweek(String::new(), vec![]), Variant::Empty(_)), "OBL C16.date.parts: no date -> empty value");
+}
